@@ -375,7 +375,7 @@ func (k *c17Checker) exec(seqs []string, w []float64) *c17Res {
 		wIn = append([]float64{}, w...)
 	}
 	var m *protein.ProtDistModel
-	var dist *mat.Dense
+	var dist, earlier, earlierCopy *mat.Dense
 	stage := "NewProtDistModel"
 	pn, msg := mc.Guard(func() {
 		if cs.Prior {
@@ -416,6 +416,18 @@ func (k *c17Checker) exec(seqs []string, w []float64) *c17Res {
 				}
 				m.MLDist(ral, rw)
 			}
+			// ... and an alignment of the same shape with another first row, whose matrix is kept by the caller
+			other := append([]string{}, seqs...)
+			fill := "W"
+			if strings.HasPrefix(seqs[0], "W") {
+				fill = "R"
+			}
+			other[0] = strings.Repeat(fill, len(seqs[0]))
+			if oal, oerr := mkAlign(align.AMINOACIDS, namedRows(other...)); oerr == nil {
+				if _, _, d1, e1 := m.MLDist(oal, wIn); e1 == nil && d1 != nil {
+					earlier, earlierCopy = d1, mat.DenseCopyOf(d1)
+				}
+			}
 		}
 		stage = "MLDist"
 		_, _, dist, err = m.MLDist(al, wIn)
@@ -432,6 +444,23 @@ func (k *c17Checker) exec(seqs []string, w []float64) *c17Res {
 	if dist == nil {
 		k.viol("shape", fmt.Sprintf("nil matrix for rows %v", seqs))
 		return nil
+	}
+	if earlier != nil && !mat.Equal(earlier, earlierCopy) {
+		// NaN entries never compare equal: such a matrix is compared cell by cell below
+		same := true
+		r0, c0 := earlier.Dims()
+		for i := 0; i < r0 && same; i++ {
+			for j := 0; j < c0; j++ {
+				a, b := earlier.At(i, j), earlierCopy.At(i, j)
+				if a != b && !(math.IsNaN(a) && math.IsNaN(b)) {
+					same = false
+				}
+			}
+		}
+		if !same {
+			k.viol("earlier-result-changed-by-later-call", fmt.Sprintf("the matrix returned for an alignment with another first row was %v and reads %v after the next MLDist call of the same model (rows %v)", mat.Formatted(earlierCopy), mat.Formatted(earlier), seqs))
+			return nil
+		}
 	}
 	if r, cc := dist.Dims(); r != n || cc != n {
 		k.viol("shape", fmt.Sprintf("%dx%d matrix for %d rows %v", r, cc, n, seqs))
@@ -1233,7 +1262,7 @@ func init() {
 	mc.Register(&mc.Prop{
 		ID:    "C17",
 		Level: "exploration",
-		Rule: "(on every case with gap-site removal on and a removable column: the matrix equals the one of the alignment with those columns deleted, removal off; also: all 2x3 alignments over {A,R,-} computed by a model object that first served the column-reversed alignment; all 2x3 alignments over {A,R,-} holding a gap, gap-site removal on, weights = every arrangement of (1,2,3); all 2x2 alignments over {A,R,W} computed after another model object of the same matrix, with the other and then the same frequency setting, served on skewed data; the 20 amino acids once each with the L column weighing 19000 (thorough also 1999) sites followed by every pair of columns over {L,A,R}, empirical frequencies (composition dominated by one amino acid: eigen values of the scaled rate matrix far below -745; cells of the pair table below 0.1% of the weight); every 2x3 alignment over {A,a,r} (lower-case residues are the same amino acids); every 2x2 alignment over {A,R,W} with gamma off and a shape 0.7 / 2 handed to the constructor all the same; with empirical frequencies the frequencies the model ends up with follow the weighted counts of the columns taken into account - equal counts, equal frequencies; larger count, frequency not smaller;) bounded-exhaustive enumeration of protein.NewProtDistModel + InitModel + MLDist on a lattice. Configurations: all 7 empirical models (LG, JTT, WAG, Dayhoff, MtREV, HIVb, AB) x {model, empirical} frequencies x gamma {off, alpha 0.5, 1, 2} x gap-site removal {off, on}. " +
+		Rule: "(on every case with gap-site removal on and a removable column: the matrix equals the one of the alignment with those columns deleted, removal off; also: all 2x3 alignments over {A,R,-} computed by a model object that first served the column-reversed alignment and one with another first row (whose matrix, kept by the caller, must read as before afterwards); all 2x3 alignments over {A,R,-} holding a gap, gap-site removal on, weights = every arrangement of (1,2,3); all 2x2 alignments over {A,R,W} computed after another model object of the same matrix, with the other and then the same frequency setting, served on skewed data; the 20 amino acids once each with the L column weighing 19000 (thorough also 1999) sites followed by every pair of columns over {L,A,R}, empirical frequencies (composition dominated by one amino acid: eigen values of the scaled rate matrix far below -745; cells of the pair table below 0.1% of the weight); every 2x3 alignment over {A,a,r} (lower-case residues are the same amino acids); every 2x2 alignment over {A,R,W} with gamma off and a shape 0.7 / 2 handed to the constructor all the same; with empirical frequencies the frequencies the model ends up with follow the weighted counts of the columns taken into account - equal counts, equal frequencies; larger count, frequency not smaller;) bounded-exhaustive enumeration of protein.NewProtDistModel + InitModel + MLDist on a lattice. Configurations: all 7 empirical models (LG, JTT, WAG, Dayhoff, MtREV, HIVb, AB) x {model, empirical} frequencies x gamma {off, alpha 0.5, 1, 2} x gap-site removal {off, on}. " +
 			"Inputs, quick tier: every alignment of " + c17BoundText("quick") + ". Thorough tier: " + c17BoundText("thorough") + ". " +
 			"Every input is executed once (a fresh model per execution) and its matrix is compared with the matrix of its smallest row/column rearrangement, so that every row order and every column order (weights travelling with their columns) of every alignment is covered; symmetries of an alignment (equal rows, equal columns) are checked on its own matrix. " +
 			"Clauses per matrix: square of the right size, no NaN, |d_ii| <= 1e-6, |d_ij - d_ji| <= 1e-6, 0 <= d_ij <= 20 (exact), d_ij <= 1e-6 when no column holds two different unambiguous residues, " +
